@@ -36,12 +36,16 @@ fn build(r: &mut Rng64) -> (World, String) {
     let renewable = r.chance(1, 2);
     let mut desc = format!("n={n} k={} notify_down={} renewable={renewable} custom={} ", cfg.k, cfg.notify_down, hcfg.enabled);
     // actual generation of each member: reached by real identity changes
-    let gens: Vec<u8> = (0..n).map(|_| r.below(3) as u8).collect();
-    let pol = if renewable { Renew::Bump } else { Renew::None };
-    let mut nodes: Vec<Node> = (0..n).map(|a| Node::new(Id::with(a as u16, 0, pol), cfg.clone(), codec, hcfg, r.next())).collect();
+    // (a quarter of the worlds live at the top of the generation range, where the next renewal wraps around and
+    // yields an identity that loses the conflict: a failed renewal, not a new life)
+    let base: u8 = if r.chance(1, 4) { 253 } else { 0 };
+    let gens: Vec<u8> = (0..n).map(|_| base + r.below(3) as u8).collect();
+    let pol = if renewable { *r.pick(&[Renew::Bump, Renew::Bump, Renew::Bump, Renew::Losing, Renew::Same]) } else { Renew::None };
+    desc.push_str(&format!("renew={pol:?} base_generation={base} "));
+    let mut nodes: Vec<Node> = (0..n).map(|a| Node::new(Id::with(a as u16, base, pol), cfg.clone(), codec, hcfg, r.next())).collect();
     for (i, node) in nodes.iter_mut().enumerate() {
-        for g in 1..=gens[i] {
-            let _ = node.call(Op::ChangeId(Id::with(i as u16, g, pol)));
+        for g in (base as u16 + 1)..=(gens[i] as u16) {
+            let _ = node.call(Op::ChangeId(Id::with(i as u16, g as u8, pol)));
         }
     }
     // world family "victim": member 0 still knows everybody as Alive while most peers hold it as Down
@@ -69,7 +73,7 @@ fn build(r: &mut Rng64) -> (World, String) {
                 continue;
             }
             // current or superseded generation, never a newer one
-            let g = if what == 5 && gens[j] > 0 { r.below(gens[j] as u64) as u8 } else { gens[j] };
+            let g = if what == 5 && gens[j] > base { base + r.below((gens[j] - base) as u64) as u8 } else { gens[j] };
             let st = match what {
                 1 | 5 => State::Alive,
                 2 => State::Suspect,
@@ -87,7 +91,7 @@ fn build(r: &mut Rng64) -> (World, String) {
                 let _ = node.call(Op::Leave);
                 desc.push_str(&format!("[{i} left] "));
             }
-            1 if !renewable => {
+            1 if !renewable || pol != Renew::Bump => {
                 let me = node.id();
                 let _ = node.call(Op::Apply(vec![Member::new(me, 0, State::Down)], false));
                 desc.push_str(&format!("[{i} told it is down] "));
@@ -263,6 +267,91 @@ fn cascade_case(ctx: &Ctx, case: u64, acc: &mut Acc) -> Verdict {
     Ok(())
 }
 
+/// A larger group with packets so small that a Feed cannot list everybody, then a datagram that makes the same
+/// instance gossip: whatever the Feed left unused must not turn into extra recipients.
+fn feedstorm_case(ctx: &Ctx, case: u64, acc: &mut Acc) -> Verdict {
+    let mut r = Rng64::derive(ctx.seed, 0xC18F, case);
+    let n = r.range(7, 12) as usize;
+    let codec = *r.pick(&[CodecKind::Hand, CodecKind::Postcard, CodecKind::BincodeStd]);
+    let mut cfg = Cfg::simple();
+    cfg.k = r.range(1, 3) as usize;
+    cfg.notify_down = r.chance(1, 2);
+    cfg.tx = *r.pick(&[1u8, 3, 10]);
+    let renewable = r.chance(1, 2);
+    let pol = if renewable { Renew::Bump } else { Renew::None };
+    let b = r.usize(n);
+    let a = (b + 1 + r.usize(n - 1)) % n;
+    let c = (b + 1 + r.usize(n - 1)) % n;
+    // room for the Feed header plus one or two members (foca samples at least five candidates for a Feed)
+    let hl = wire::encode_header(codec, &Header { src: Id::new(b as u16, 0), src_incarnation: 0, dst: Id::new(a as u16, 0), message: Message::Feed }).len();
+    let ml = wire::encode_member(codec, &Member::new(Id::new(2, 0), 0, State::Alive)).len();
+    let need2 = wire::encode_header(codec, &Header { src: Id::new(c as u16, 0), src_incarnation: 0, dst: Id::new(b as u16, 0), message: Message::Ping(1) }).len() + 2 + ml;
+    cfg.mps = (hl + 2 + ml * r.range(1, 2) as usize + r.usize(3)).max(need2);
+    let mut nodes: Vec<Node> = (0..n).map(|a| Node::new(Id::with(a as u16, 0, pol), cfg.clone(), codec, HdlCfg::disabled(), r.next())).collect();
+    for i in 0..n {
+        let all: Vec<Member<Id>> = (0..n).filter(|j| *j != i).map(|j| Member::new(Id::new(j as u16, 0), 0, State::Alive)).collect();
+        let _ = nodes[i].call(Op::Apply(all, false));
+    }
+    let (ida, idb, idc) = (nodes[a].id(), nodes[b].id(), nodes[c].id());
+    let desc = format!("n={n} k={} max_packet_size={} renewable={renewable} notify_down={}", cfg.k, cfg.mps, cfg.notify_down);
+    // 1. Announce a -> b (answered with a Feed that cannot hold everybody); 2. something that makes b gossip
+    let second_kind = r.below(4);
+    let second = match second_kind {
+        0 => wire::build(codec, &Header { src: idc, src_incarnation: 0, dst: idb, message: Message::Gossip }, Some(&[Member::new(idb, 0, State::Suspect)]), &[]),
+        1 => wire::build(codec, &Header { src: idc, src_incarnation: 0, dst: idb, message: Message::Ping(1) }, Some(&[Member::new(idb, 0, State::Suspect)]), &[]),
+        2 => wire::build(codec, &Header { src: idc, src_incarnation: 0, dst: idb, message: Message::TurnUndead }, None, &[]),
+        _ => wire::build(codec, &Header { src: idc, src_incarnation: 0, dst: idb, message: Message::Gossip }, Some(&[Member::new(idb, 0, State::Down)]), &[]),
+    };
+    let injections = vec![
+        (idb, wire::build(codec, &Header { src: ida, src_incarnation: 0, dst: idb, message: Message::Announce }, None, &[]), "Announce"),
+        (idb, second, ["Gossip+Suspect(self)", "Ping+Suspect(self)", "TurnUndead", "Gossip+Down(self)"][second_kind as usize]),
+    ];
+    let mut total = 0usize;
+    let mut max_fanout = 0usize;
+    for (inj, (dst, d, what)) in injections.into_iter().enumerate() {
+        let mut bag: Vec<(Id, Vec<u8>)> = vec![(dst, d)];
+        let mut deliveries = 0usize;
+        while !bag.is_empty() {
+            let idx = r.usize(bag.len());
+            let (to, data) = bag.remove(idx);
+            let Some(j) = nodes.iter().position(|x| x.id().addr == to.addr) else { continue };
+            deliveries += 1;
+            ensure!(deliveries <= DELIVERY_CAP, "C18/cascade-does-not-drain", "{deliveries} deliveries after injecting {what} and the network is still not empty ({desc})");
+            let (hdr, _) = wire::decode_header(codec, &data).map_err(|e| V::new("C18/harness", e))?;
+            let self_updates = wire::parse(codec, &data).ok().and_then(|p| p.members).map(|ms| ms.iter().filter(|m| m.id().addr == to.addr).count()).unwrap_or(0)
+                + usize::from(hdr.message == Message::TurnUndead);
+            let rec = nodes[j].call(Op::Data(data));
+            if rec.res.is_panic() {
+                acc.inconclusive += 1;
+                return Ok(());
+            }
+            let fan = rec.sends().count();
+            max_fanout = max_fanout.max(fan);
+            // the datagram injected second is known exactly: one refutation / renewal gossip round (<= k) plus at most
+            // one direct reply
+            let bound = if inj == 1 && deliveries == 1 { cfg.k + 1 } else { (self_updates + 1) * cfg.k + 2 };
+            ensure!(
+                fan <= bound,
+                "C18/fan-out",
+                "one {} caused {fan} new datagrams (bound {bound}) after the instance had answered an Announce with a Feed that could not list all {} members ({desc}; injected {what})",
+                kind_name(&hdr.message),
+                n - 2
+            );
+            for (to, d) in rec.sends() {
+                bag.push((*to, d.clone()));
+            }
+        }
+        total += deliveries;
+    }
+    acc.max("feedstorm_deliveries_until_drained", total as u64);
+    acc.max("feedstorm_fan_out_per_delivery", max_fanout as u64);
+    acc.tally("feedstorm_cases", 1);
+    acc.tally("datagrams_delivered", total as u64);
+    acc.nontrivial(fp(&("feedstorm", desc.clone(), a, b, c, second_kind)));
+    acc.sample(|| json!({"workload": "feedstorm", "world": desc, "deliveries": total, "max_fanout": max_fanout}));
+    Ok(())
+}
+
 pub fn check() -> Check {
     Check {
         id: "C18",
@@ -270,7 +359,10 @@ pub fn check() -> Check {
         rule: "2..=4 real instances put, by public operations only, into random reachable mutual-knowledge states (unknown/Alive/Suspect/Down/superseded generation; active/idle/left/told-down; renewable or not; notify_down_members on/off; with/without custom broadcasts); one well-formed datagram of each of the 11 kinds (case index mod 11) injected; network drained with all timers held under 5 delivery-order strategies (random, FIFO, LIFO, gossip-before-TurnUndead with newest identities first, TurnUndead-first with oldest identities first). Caps: 64 deliveries per cascade, 4 deliveries of the same (src,dst,kind), fan-out (self-directed updates+1)*k+2 per delivery. Non-trivial: >= 2 deliveries; distinct by (world, injected datagram).",
         assumptions: &["a finite run cannot show non-termination: a reply chain longer than the caps (an order of magnitude above the longest legitimate one observed) is what is reported"],
         required: &["cascades_drained", "initial/TurnUndead", "initial/Ping"],
-        workloads: vec![Workload { name: "cascade", f: cascade_case, quick: 60_000, thorough: 3_000_000, flav: Flav::Checked }],
+        workloads: vec![
+            Workload { name: "cascade", f: cascade_case, quick: 60_000, thorough: 3_000_000, flav: Flav::Checked },
+            Workload { name: "feedstorm", f: feedstorm_case, quick: 8_000, thorough: 400_000, flav: Flav::Checked },
+        ],
         exhaustive: false,
     }
 }
